@@ -322,7 +322,7 @@ func serveScenario(nconn int, kind string, stopBy string) *mc.Scenario {
 func plans(tier string) []mc.Plan {
 	var ps []mc.Plan
 	wnames := []string{"idle", "unary", "sstream", "bidi", "running", "parked", "badmeta"}
-	cfgs := []wl.Config{{Pipe: tr.Options{Cap: -1}}, {Soft: true, Pipe: tr.Options{Cap: -1}}}
+	cfgs := []wl.Config{{Pipe: tr.Options{Cap: -1}}, {Soft: true, Pipe: tr.Options{Cap: -1}}, {Pipe: tr.Options{Cap: -1}, Inactivity: true}}
 	if tier == "thorough" {
 		wnames = append(wnames, "cstream", "unary2")
 		cfgs = append(cfgs, wl.Config{Pipe: tr.Options{Cap: 0}})
@@ -334,7 +334,7 @@ func plans(tier string) []mc.Plan {
 					continue // the stalled client never reaches the server
 				}
 				bounds := []int{0, 1}
-				if (tier == "thorough" || !cfg.Soft) && (w == "idle" || w == "unary" || w == "running" || w == "parked") && cfg.Pipe.Cap == -1 {
+				if (tier == "thorough" || (!cfg.Soft && !cfg.Inactivity)) && (w == "idle" || w == "unary" || w == "running" || w == "parked") && cfg.Pipe.Cap == -1 {
 					bounds = []int{0, 1, 2}
 				}
 				ps = append(ps, mc.Plan{Scen: scenario(cfg, w, by), Bounds: bounds, Split: len(bounds) > 2})
